@@ -118,6 +118,16 @@ def run(ctx):
             a = ga.blocks[fb]['term']['args'][0]
             pt = (fb, len(ga.blocks[fb]['stmts']))
             if a['k'] in ('copy', 'move') and not a['place']['p'] and re.search(r'^\[u8; 6_usize\]$', ga.locals[a['place']['l']]['ty']):
+                L_ = a['place']['l']
+                for _ in range(4):
+                    ds_ = [(b_, i_, st_) for b_, blk_ in enumerate(ga.blocks) if not blk_['cleanup'] for i_, st_ in enumerate(blk_['stmts']) if not st_['lhs']['p'] and st_['lhs']['l'] == L_]
+                    if len(ds_) == 1 and ds_[0][2]['rv']['k'] == 'use' and ds_[0][2]['rv']['a']['k'] in ('copy', 'move') and not ds_[0][2]['rv']['a']['place']['p']:
+                        L_ = ds_[0][2]['rv']['a']['place']['l']
+                    else:
+                        break
+                # a match-valued array: one whole-array literal per branch -> evaluate every alternative on its own
+                if len(ds_) >= 2 and all(st_['rv']['k'] == 'agg' and st_['rv'].get('agg') == 'array' and len(st_['rv']['ops']) == 6 for _, _, st_ in ds_):
+                    return ('alts', [[ga._through(ga.operand(o_, (b_, i_)), (b_, i_), 0) for o_ in st_['rv']['ops']] for b_, i_, st_ in ds_])
                 return [ga._through(ga.read(('index', ('local', a['place']['l']), ('const', i_, None, 'usize')), pt), pt, 0) for i_ in range(6)]
             e = peel(ga.argv(fb, 0), unwraps=False)
             if isinstance(e, tuple) and e[0] == 'agg' and e[1] == 'array' and len(e[2]) == 6:
@@ -132,10 +142,16 @@ def run(ctx):
         # bytes 3,4,5 carry bits 23..16, 15..8, 7..0 of the address
         out += [low[16:24], low[8:16], low[0:8]]
         return out
+    work_ = []
     for bi, v in vals:
         mb = mac_bytes(bi)
         if mb is None:
             continue
+        if isinstance(mb, tuple) and mb[0] == 'alts':
+            work_ += [(bi, m_) for m_ in mb[1]]
+        else:
+            work_.append((bi, mb))
+    for bi, mb in work_:
         be = BitEval()
         got = [be.bits(x) for x in mb]
         got = [(g + [0] * 8)[:8] if g is not None else [None] * 8 for g in got]
@@ -169,11 +185,16 @@ def run(ctx):
             fixed.append('derived')
         else:
             fixed.append('other:' + short(v)[:60])
-    rep.check(r1b, sorted(fixed) == ['allnodes', 'broadcast', 'derived', 'derived', 'own'], 'insert-sites', 'members inserted: %s' % sorted(fixed))
+    rep.check(r1b, sorted(set(fixed)) == ['allnodes', 'broadcast', 'derived', 'own'] and fixed.count('allnodes') == fixed.count('broadcast') == fixed.count('own') == 1 and fixed.count('derived') in (1, 2),
+              'insert-sites', 'members inserted: %s' % sorted(fixed))
     # the derived inserts are inside the loop over the *configured* address list
     src = [bi for bi, t in ga.calls(r'IntoIterator>::into_iter$|IntoIterator::into_iter$')]
     its = [short(ga.argv(b, 0)) for b in src]
-    rep.check(r1b, len(src) == 1 and 'arg2' in its[0], 'iterates-config-list', 'loop iterates over %s' % its)
+    def only_arg2(e):
+        roots = [x for x in walk(e) if isinstance(x, tuple) and x and x[0] in ('param', 'entry')]
+        return any(x == ('param', 2) or (x[0] == 'entry' and Fn.root_of(x[1]) in (('param', 2), ('deref', ('param', 2)))) for x in roots) and \
+            all(x == ('param', 2) or (x[0] == 'entry' and Fn.root_of(x[1]) in (('param', 2), ('deref', ('param', 2)))) for x in roots)
+    rep.check(r1b, len(src) >= 1 and all(only_arg2(ga.argv(b, 0)) for b in src), 'iterates-config-list', 'loop iterates over %s' % its)
 
     # ---------------- R2 dispatch sets
     r2 = rep.rule('C02-R2', 'EtherType dispatch handles exactly {ARP,IPv4,IPv6}; IPv4 next protocol exactly {ICMP,TCP,UDP}; IPv6 next header exactly {ICMPv6,TCP,UDP}; every default edge leads only to silence', floor=6)
@@ -299,45 +320,48 @@ def run(ctx):
                 rep.check(r4, tgt is not None and req_getter('get_target_addr')(tgt), 'nd_ns_repl:advertised-target', 'NeighborAdvert.target_addr = %s' % (short(tgt) if tgt else '?'), '%s:%d' % (nd.file, s['line']))
     ic = F.fn('layer_4::icmpv6::repl')
     rep.saw(ic)
-    # dst_ip assignments
-    # the variable returned as second tuple component
-    defs = []
-    addrvar = None
+    # the address handed to L3 = second component of the returned tuple: every alternative is None or
+    # Some(target of the solicitation), and a Some is only built on path states where nd_ns_repl(that solicitation)
+    # returned Some - independent of whether a variable or a tuple-valued match carries it
+    comp = []
     for rb in ic.return_blocks():
-        for bi2, blk in enumerate(ic.blocks):
-            for st in blk['stmts']:
-                if not st['lhs']['p'] and st['lhs']['l'] == 0 and st['rv']['k'] == 'agg' and st['rv'].get('agg') == 'tuple' and len(st['rv']['ops']) == 2:
-                    o = st['rv']['ops'][1]
-                    if o['k'] in ('copy', 'move') and not o['place']['p']:
-                        cand = o['place']['l']
-                        # follow one copy
-                        ds = defs_of_local(ic, cand)
-                        if len(ds) == 1 and ic.blocks[ds[0][0]]['stmts'][ds[0][1]]['rv']['k'] == 'use' and ic.blocks[ds[0][0]]['stmts'][ds[0][1]]['rv']['a'].get('k') in ('copy', 'move') and not ic.blocks[ds[0][0]]['stmts'][ds[0][1]]['rv']['a']['place']['p']:
-                            cand = ic.blocks[ds[0][0]]['stmts'][ds[0][1]]['rv']['a']['place']['l']
-                        if len(defs_of_local(ic, cand)) >= 2:
-                            addrvar = cand
-    for bi, i, v in (defs_of_local(ic, addrvar) if addrvar is not None else []):
-        defs.append((bi, i, ic._through(v, (bi, i), 0)))
-    some_defs = [(bi, i, v) for bi, i, v in defs if not (isinstance(v, tuple) and v[0] == 'agg' and v[1].endswith('Option::None'))]
-    okd = len(some_defs) == 1
-    det = 'dst_ip definitions: %s' % [short(v)[:80] for _, _, v in defs]
+        rv_ = peel(ic.ret_value(rb), unwraps=False)
+        for a_ in (rv_[1] if isinstance(rv_, tuple) and rv_[0] == 'phi' else [rv_]):
+            a_ = peel(a_, unwraps=False)
+            if isinstance(a_, tuple) and a_[0] == 'agg' and a_[1] == 'tuple' and len(a_[2]) == 2:
+                comp += palts(a_[2][1], unwraps=False)
+            else:
+                comp.append(('?', a_))
+    somes_ = [c for c in comp if not (isinstance(c, tuple) and c[0] == 'agg' and str(c[1]).endswith('Option::None'))]
+    det = 'address component alternatives: %s' % sorted(set(short(c)[:70] for c in comp))
+    okd = bool(comp) and bool(somes_)
+    ndc = ic.calls(r'^layer_4::icmpv6::nd_ns_repl$')
+    okd = okd and len(ndc) == 1
     if okd:
-        bi, i, v = some_defs[0]
-        inner = peel(v)
-        # get_target_addr(nd_ns_req) where nd_ns_req = NeighborSolicitPacket::new(icmp_req.packet())
-        okd = is_call(inner, r"NeighborSolicitPacket::<'a>::get_target_addr$")
-        if okd:
-            obj = peel(inner[2][0])
-            okd = is_call(obj, r"NeighborSolicitPacket::<'a>::new$") and calls_in(obj, r"Icmpv6Packet<'a> as pnet::packet::Packet>::packet$") != []
-            # gate: nd_ns_repl(...) returned Some, called on the same object
-            ndc = ic.calls(r'^layer_4::icmpv6::nd_ns_repl$')
-            okd = okd and len(ndc) == 1 and peel(ic.argv(ndc[0][0], 0)) == obj
-            if okd:
-                ce = ic.call_val(ndc[0][0])
-                gate = ic.gate_edges(lambda d, vv, vals: d == ('discr', ce) and vv == 1)
-                off = ic.must_pass(gate, [bi])
-                okd = not off
-                det += '; assigned only after nd_ns_repl(same solicitation) returned Some: %s' % (not off)
+        obj = peel(ic.argv(ndc[0][0], 0))
+        okd = is_call(obj, r"NeighborSolicitPacket::<'a>::new$") and calls_in(obj, r"Icmpv6Packet<'a> as pnet::packet::Packet>::packet$") != []
+        # every place where a Some(address) is materialised: it is the target of that very solicitation
+        mk = []
+        for bi2, blk in enumerate(ic.blocks):
+            if blk['cleanup']:
+                continue
+            for i2, st in enumerate(blk['stmts']):
+                if st['rv']['k'] == 'agg' and st['rv'].get('adt') == 'std::option::Option' and st['rv'].get('variant') == 'Some' and \
+                        not st['lhs']['p'] and 'Ipv6Addr' in ic.locals[st['lhs']['l']]['ty']:
+                    v2 = peel(ic._through(ic.rvalue(st['rv'], (bi2, i2)), (bi2, i2), 0))
+                    mk.append(bi2)
+                    if not (is_call(v2, r"NeighborSolicitPacket::<'a>::get_target_addr$") and peel(v2[2][0]) == obj):
+                        okd = False
+                        det += '; %s is not the target of the answered solicitation' % short(v2)[:60]
+        if okd and mk:
+            ce = ic.call_val(ndc[0][0])
+            at_ = path_states_at(ic, mk, lambda k: k == ('discr', ce))
+            good = all(at_[b] and all(any(k == ('discr', ce) and is_eq(r_, c_, 1, two=True) for (k, r_, c_) in fs) for fs in at_[b]) for b in mk)
+            okd = good
+            det += '; built only after nd_ns_repl(same solicitation) returned Some: %s' % good
+        elif okd:
+            okd = False
+            det += '; construction site of the Some(target) not found'
     rep.check(r5, okd, 'icmpv6::repl:nd-target-summary', det, '%s:%d' % (ic.file, ic.line))
     # the tuple returned carries dst_ip in position 1
     for rb in ic.return_blocks():
